@@ -71,7 +71,7 @@ def gen(t, tier):
     sc = {'grid': grid, 'gk': gk, 'meta_size': t.pick([[1, 1], [2, 2], [3, 3], [2, 1], [4, 4]]),
           'levels': t.pick(['all', 'all', 'last2', 'first', 'odd', 'range', 'to0', 'from0to0', 'open_to', 'open_from', 'to_big',
                             'list_big', 'res_list', 'res_range']),
-          'coverage': t.weighted([('none', 2), ('bbox', 3), ('lshape', 2), ('multi', 2), ('tiny', 1), ('edge', 4)]),
+          'coverage': t.weighted([('none', 2), ('bbox', 3), ('lshape', 2), ('multi', 2), ('two', 2), ('tiny', 1), ('edge', 4)]),
           'cov_seed': [t.choice(1000), t.choice(1000), t.choice(1000), t.choice(1000)],
           'cov_srs': t.pick(['3857', '3857', '3857', '4326']),
           'caches': t.pick([1, 1, 1, 2]),
@@ -144,6 +144,12 @@ def _coverage_geom(sc, gbbox, grid=None):
     if min(gb) < -0.999 * 20037508.342789244 or max(gb) > 0.999 * 20037508.342789244:
         return conf, geom, files        # beyond +-180 degrees the area has no geographic spelling: stays in EPSG:3857
     from shapely.ops import transform
+    if '__several__' in conf:
+        out = {}
+        for k, cf in conf['__several__'].items():
+            b = cf['bbox']
+            out[k] = {'bbox': list(_to_lonlat(b[0], b[1]) + _to_lonlat(b[2], b[3])), 'srs': 'EPSG:4326'}
+        return {'__several__': out}, geom, files
     conf = dict(conf, srs='EPSG:4326')
     if 'bbox' in conf:
         b = conf['bbox']
@@ -198,6 +204,13 @@ def _coverage_geom_3857(sc, gbbox, grid=None):
         poly = Polygon([(px, py), (px + sw, py), (px + sw, py + sh * 0.3), (px + sw * 0.3, py + sh * 0.3),
                         (px + sw * 0.3, py + sh), (px, py + sh)])
         return {'datasource': '/simfs/conf/cov.txt', 'srs': 'EPSG:3857'}, poly, {'/simfs/conf/cov.txt': poly.wkt + '\n'}
+    if kind == 'two':
+        # two coverages named by one seed entry (mapproxy joins them into a MultiCoverage)
+        b1 = [x0 + a * w * 0.4, y0 + b * h * 0.4, x0 + a * w * 0.4 + 0.15 * w, y0 + b * h * 0.4 + 0.2 * h]
+        b2 = [x0 + (0.5 + c * 0.3) * w, y0 + (0.5 + d * 0.3) * h, x0 + (0.5 + c * 0.3) * w + 0.1 * w, y0 + (0.5 + d * 0.3) * h + 0.12 * h]
+        from shapely.ops import unary_union
+        return {'__several__': {'cov': {'bbox': b1, 'srs': 'EPSG:3857'}, 'cov2': {'bbox': b2, 'srs': 'EPSG:3857'}}}, \
+            unary_union([box(*b1), box(*b2)]), {}
     p1 = box(x0 + a * w * 0.4, y0 + b * h * 0.4, x0 + a * w * 0.4 + 0.15 * w, y0 + b * h * 0.4 + 0.2 * h)
     p2 = box(x0 + (0.5 + c * 0.3) * w, y0 + (0.5 + d * 0.3) * h, x0 + (0.5 + c * 0.3) * w + 0.1 * w, y0 + (0.5 + d * 0.3) * h + 0.12 * h)
     from shapely.ops import unary_union
@@ -400,7 +413,10 @@ def run(sc, tape):
             elif lv_conf is not None:
                 sconf['levels'] = lv_conf
             seed_conf = {'seeds': {'s': sconf}}
-            if cov_conf is not None:
+            if cov_conf is not None and '__several__' in cov_conf:
+                seed_conf['coverages'] = cov_conf['__several__']
+                sconf['coverages'] = sorted(cov_conf['__several__'])
+            elif cov_conf is not None:
                 seed_conf['coverages'] = {'cov': cov_conf}
                 sconf['coverages'] = ['cov']
 
